@@ -540,6 +540,9 @@ where
 			let _ = s.send(StatusMessage::Scanning(msg, 99));
 		}
 		o.status = OutputStatus::Unspent;
+		// the record was not refreshed while it was marked spent: take the
+		// height the output has on chain now
+		o.height = m.1.height;
 		// any transactions associated with this should be cancelled
 		cancel_tx_log_entry(wallet_inst.clone(), keychain_mask, &o)?;
 		wallet_lock!(wallet_inst, w);
